@@ -547,6 +547,7 @@ static void gen_values(Case& c, vh::Rng& rng, const std::string& dist) {
     const long hot = (long)(rng.next() % (uint64_t)n);
     for (long i = 0; i < n; ++i) {
       int v = rng.range(-A, A);
+      if (c.vexp <= -100) v = (rng.coin() ? 1 : -1) * rng.range(A / 2, A);   // keeps automatic scales either normal floats or exactly 0
       if (dist == "nonneg") v = rng.range(0, A);
       else if (dist == "allzero") v = 0;
       else if (dist == "allneg") v = -rng.range(1, A);
@@ -597,16 +598,16 @@ int main(int argc, char** argv) {
   mkdir(g_dir.c_str(), 0777);
   vh::Rng rng(vh::seed_from_env());
   long id = 0;
-  {
-    // environment facts observed through the API: default radionuclides of the database, native byte order
-    RadionuclideDB db;
-    auto rnj = [&](ImagingModality::ImagingModalityValue m) {
-      Radionuclide r = db.get_radionuclide(ImagingModality(m), "");
-      return vh::Json().str("rn", r.get_name()).num("hlms", satd(r.get_half_life(false) * 1000.)).num("brppm", satd(r.get_branching_ratio(false) * 1.e6)).done();
-    };
-    tr.emit(vh::Json("Env").str("native", ByteOrder::get_native_order() == ByteOrder::big_endian ? "BIGENDIAN" : "LITTLEENDIAN")
-                .raw("defPT", rnj(ImagingModality::PT)).raw("defNM", rnj(ImagingModality::NM)).raw("defOther", rnj(ImagingModality::MR)));
-  }
+  // environment facts observed through the API: default radionuclides of the database, native byte order
+  // (emitted before every case so that a trace can be cut between cases)
+  RadionuclideDB db;
+  auto rnj = [&](ImagingModality::ImagingModalityValue m) {
+    Radionuclide r = db.get_radionuclide(ImagingModality(m), "");
+    return vh::Json().str("rn", r.get_name()).num("hlms", satd(r.get_half_life(false) * 1000.)).num("brppm", satd(r.get_branching_ratio(false) * 1.e6)).done();
+  };
+  const std::string native = ByteOrder::get_native_order() == ByteOrder::big_endian ? "BIGENDIAN" : "LITTLEENDIAN";
+  const std::string def_pt = rnj(ImagingModality::PT), def_nm = rnj(ImagingModality::NM), def_other = rnj(ImagingModality::MR);
+  auto emit_env = [&] { tr.emit(vh::Json("Env").str("native", native).raw("defPT", def_pt).raw("defNM", def_nm).raw("defOther", def_other)); };
   if (mode == "rt") {
     const long ncases = atol(argv[3]);
     const int stage = argc > 4 ? atoi(argv[4]) : 0;
@@ -632,6 +633,9 @@ int main(int argc, char** argv) {
       if (scale_setting == 1) { c.scale_m = 1; c.scale_e = 0; }
       else if (scale_setting == 2) { c.scale_m = 1; c.scale_e = c.vexp + std::max(bl - tb + 2, -rng.range(0, 3)); }
       else if (scale_setting == 3) { c.scale_m = 1; c.scale_e = c.vexp + bl - tb - 3; }
+      // keep the requested scale a normal single-precision number; otherwise fall back to the automatic setting
+      if (c.scale_m && (c.scale_e < -120 || c.scale_e > 120)) { c.scale_m = 0; c.scale_e = 0; }
+      emit_env();
       run_case(tr, c, rng, false);
     }
   } else if (mode == "trunc") {
@@ -651,6 +655,7 @@ int main(int argc, char** argv) {
       gen_values(c, rng, "nonneg");
       gen_exam(c, rng);
       c.scale_m = 1; c.scale_e = 0;   // (1-byte types: too small, the library switches to its automatic scale)
+      emit_env();
       run_case(tr, c, rng, true);
     }
   } else return 2;
